@@ -1,7 +1,7 @@
 //! S01 (pseudo-property): the composed DHCPv4 server step.
 //! The REAL path, as recvdhcp runs it: octets -> dhcppkt::parse -> dhcp::handle_pkt (real
 //! configuration loaded from YAML by erbium's own loader, real SQLite file store) ->
-//! ServerIds update -> to_array(chaddr) -> Dhcp::serialise -> Fragment::new_udp4(..).flatten().
+//! ServerIds update -> to_array(chaddr) -> Dhcp::serialise -> reply_frame (size guard + Fragment::new_udp4(..).flatten()).
 //! The frame octets are compared with coq/Model/DhcpServer.v `server_step` given the pool's
 //! answer read off the reply / the rows (token grammar in coq/Model/EntryS01.v):
 //!
@@ -143,10 +143,10 @@ impl Server {
             let dst_ip = if request.pkt.get_broadcast_flag() { Ipv4Addr::BROADCAST } else { reply.yiaddr };
             let replybuf = reply.serialise();
             use erbium_net::addr::Inet4Addr;
-            use erbium_net::packet::{Fragment, Tail};
             let src = Inet4Addr::from(std::net::SocketAddrV4::new(request.serverip, 67));
             let dst = Inet4Addr::from(std::net::SocketAddrV4::new(dst_ip, s.port));
-            Some(Fragment::new_udp4(src, &s.mac, dst, &chaddr, Tail::Payload(&replybuf)).flatten())
+            // the frame as the receive loop builds it (None: the reply does not fit a datagram and is not sent)
+            dhcp::verif::reply_frame(src, &s.mac, dst, &chaddr, &replybuf)
         });
         let t1 = wall();
         t.n(t0).n(t1);
@@ -370,6 +370,26 @@ pub fn run(args: &Args, out: &mut dyn Write) -> Stats {
         return stats;
     }
     let mut r = Rng::new(args.seed ^ 0x501);
+    // configurations whose policy selects more option data than a UDP datagram holds (the loader puts no bound
+    // on it): around 65507 octets of reply -- every length of the 16-bit overflow window would be slow, a few are
+    // taken -- and well beyond 65535
+    for n in [60000usize, 64737, 64738, 64750, 64757 + 8, 64770, 65300, 70000] {
+        let c = Conf {
+            policies: vec![CPolicy {
+                sn: Some((0xC000_0200, 24)),
+                ao: vec![(252, Some(Val::Bytes(vec![b'a'; n])))],
+                ad: vec![AItem::Range(0xC000_020A, 0xC000_0214)],
+                ..Default::default()
+            }],
+            ..Default::default()
+        };
+        let req = Req { serverip: 0xC000_0201, mtu: None, router: None, chaddr: vec![2, 0, 0x5e, 0x10, 0, 9], opts: vec![(53, vec![1]), (55, vec![1, 3, 252])] };
+        let steps = vec![Step { serverip: req.serverip, mtu: None, router: None, mac: [2, 0, 0x5e, 0x10, 0, 1], port: 68, pkt: mk_request(&req).pkt.serialise() }];
+        if let Some(t) = run_case(&rt, &c, &steps, &mut stats) {
+            writeln!(out, "{}", t.0).unwrap();
+            stats.bump("fixed.reply-around-64k");
+        }
+    }
     let g = GenCfg { depth: 2, width: 2, addr_items: true, cond8: 5 };
     let mut i = 0;
     let mut tries = 0;
